@@ -176,6 +176,7 @@ def rand_cmp(rng, vocab=True):
         ("a", [{"s": "key", "name": "b", "i": ""}]),
         # indexed steps whose name needs quoting, first and later in the path; an index on the first step
         ("file", [{"s": "idx", "name": "x-list", "i": rng.choice(["1", "*"])}, {"s": "key", "name": "c", "i": ""}]),
+        ("file", [{"s": "idx", "name": "sections", "i": rng.choice(["-1", "-12", "0"])}, {"s": "key", "name": "name", "i": ""}]),      # the grammar admits negative indices
         ("x-custom", [{"s": "key", "name": "a-b", "i": ""}, {"s": "idx", "name": "c-d", "i": rng.choice(["0", "*", "10"])}, {"s": "key", "name": "e", "i": ""}]),
         ("process", [{"s": "idx", "name": "opened_connection_refs", "i": "0"}, {"s": "ref", "name": "src_ref", "i": ""}, {"s": "key", "name": "value", "i": ""}]),
     ])
